@@ -81,6 +81,7 @@ def make_market_class():
             self.net = Decimal(0)
             self.update_script = {}        # model time of the bar -> [tags] recorded by update()
             self.accrue = False            # C02: the market's value depends on the data of every bar (column v)
+            self.sparse = False            # _resample drops the bins without a row, as DeribitOptionMarket._resample does (a hole stays a hole)
 
         def check_market(self):
             if self._data.index.nlevels > 1:      # a book: DeribitOptionMarket.check_market only asks for a DataFrame
@@ -129,9 +130,11 @@ def make_market_class():
         def _resample(self, freq):
             if self._data.index.nlevels > 1:     # a book (one row per instrument and timestamp): every instrument resampled like a plain frame
                 # (every bin from its first to its last row; DeribitOptionMarket additionally drops the empty bins — its own model's subject)
-                self._data = self._data.groupby(level=1).resample(freq, level=0).first().swaplevel(1, 0).sort_index()
+                r = self._data.groupby(level=1).resample(freq, level=0).first()
+                self._data = (r.dropna(how="all") if self.sparse else r).swaplevel(1, 0).sort_index()
             else:
-                self._data = self._data.resample(freq).first()
+                r = self._data.resample(freq).first()
+                self._data = r.dropna(how="all") if self.sparse else r
 
         @write_func
         def op(self, tag, ok=True, amount=None):
@@ -255,6 +258,7 @@ def build(markets, price_times, interval="1min", rec=None):
         else:
             m = PM(MarketInfo(name), frame(times, spec[4] if len(spec) > 4 else 1), rec, i)
             m.quote_token = usdc
+            m.sparse = bool(spec[5]) if len(spec) > 5 else False
         if has_open:
             m.open = (lambda mid: lambda snap: rec.on_open(mid, snap))(i)
         a.broker.add_market(m)
